@@ -562,7 +562,12 @@ LogStep ==
 \* the handler returned: small result -> SUCCEEDED; large result -> EXECUTION SUCCEED checkpoint first
 HandlerReturn ==
   /\ Running("END", "Check")
-  /\ IF I.raises
+  /\ IF I.raises /\ I.large
+       THEN \* an oversized error: EXECUTION FAIL is checkpointed first, then FAILED without payload
+            /\ Enq([op |-> 0, act |-> "FAIL", sync |-> TRUE, res |-> 0, rc |-> FALSE], "DoneFail")
+            /\ UNCHANGED <<pc, cur, att, err, rcmode, val, bevars, inv, ist, outcome, loc, pfail, crashes, apifails>>
+            /\ UNCHANGED monvars
+       ELSE IF I.raises
        THEN \* the handler itself raises an ordinary exception at its end: FAILED with the error object
             /\ EndWith("FAILED") /\ UNCHANGED <<bevars, crashes, apifails>> /\ UNCHANGED monvars
        ELSE IF I.large
@@ -570,6 +575,11 @@ HandlerReturn ==
             /\ UNCHANGED <<pc, cur, att, err, rcmode, val, bevars, inv, ist, outcome, loc, pfail, crashes, apifails>>
             /\ UNCHANGED monvars
        ELSE /\ EndWith("SUCCEEDED") /\ UNCHANGED <<bevars, crashes, apifails>> /\ UNCHANGED monvars
+
+HandlerLargeFailDone ==
+  /\ Running("END", "DoneFail")
+  /\ bad' = bad \cup (IF execRes = "recorded" THEN {} ELSE {"C16-final-not-recorded"})
+  /\ EndWith("FAILED") /\ UNCHANGED <<bevars, crashes, apifails, fnCount, obs, known, midAmo, last, nobs>>
 
 HandlerLargeDone ==
   /\ Running("END", "Done")
@@ -587,7 +597,7 @@ UserStep == StepCheck \/ StepRecheck \/ StepFnEnter \/ StepFnExit \/ StepDone \/
             \/ WaitCheck \/ InvokeCheck \/ CbCreate \/ CbResult
             \/ WfcCheck \/ WfcPollEnter \/ WfcPollExit \/ WfcDone \/ WfcRaiseOrig
             \/ ChildBegin \/ ChildEnter \/ ChildEnd \/ ChildDone \/ ChildUnwind \/ ChildReraise
-            \/ HandlerReturn \/ HandlerLargeDone \/ HandlerRaise
+            \/ HandlerReturn \/ HandlerLargeDone \/ HandlerLargeFailDone \/ HandlerRaise
             \/ Track \/ LogStep \/ Resume \/ PostPut \/ BteEnd
 
 EnvStep == (\E i \in OpIdx : FireTimer(i)) \/ (\E i \in OpIdx, o \in TERMINAL : CompleteExt(i, o))
